@@ -378,7 +378,7 @@ Definition r_verdict (id : Z) (reqs : list (Z * Z)) (ht : htab) (bl fl : runs) (
       | None => false
       end
     end in
-  if hyp then
+  (if hyp then
     let ok_honest := List.forallb (fun p => negb (mem p obans)) honest in
     let ok_value := match ores' with Some l => is_prefix l tc | None => true end in
     let liars := List.map fst (List.filter (fun q : Z * list Z => negb (is_prefix (snd q) tc)) cpl) in
@@ -388,7 +388,14 @@ Definition r_verdict (id : Z) (reqs : list (Z * Z)) (ht : htab) (bl fl : runs) (
                        | None => List.existsb (fun q => mem q (List.map fst cpl)) obans
                        end in
     if ok_honest && ok_value && ok_liars && ok_progress then [] else [(id, 2, 0, 0)]
-  else [].
+  else []) ++
+  (* the hard-coded control checkpoints, whoever is honest: the sender of a
+     list that contradicts one - at ANY entry, the last one included - is
+     banned, and no such list is returned *)
+  (let ok_ctl :=
+     List.forallb (fun q : Z * list Z => negb (peer_hard_bad hardf (snd q)) || mem (fst q) obans) cpl &&
+     match ores' with Some l => negb (peer_hard_bad hardf l) | None => true end in
+   if ok_ctl then [] else [(id, 2, 1, 0)]).
 
 (* ---------- family C: getCheckpointedCFHeaders ---------- *)
 Definition rarr := (Z * Z * bool * rmsg)%type.                 (* request number, peer, regular?, message *)
